@@ -18,7 +18,7 @@ from concurrent.futures import ThreadPoolExecutor
 from pathlib import Path
 
 from vlib import coqrun
-from vlib.c18_corpus import CORPUS
+from vlib.c18_corpus import CF_FIXED, CORPUS, gen_cf_program
 from vlib.common import REPO, VERIF
 
 LEVEL = "other"
@@ -481,6 +481,57 @@ def part_histories(ctx, root):
     return compilations, compared
 
 
+# --------------------------------------------------------------------------- exploration: hash-seed sweep on control flow
+HS_CFGS = [{"venom": False, "level": "gas"}, {"venom": True, "level": "none"}, {"venom": True, "level": "gas"},
+           {"venom": True, "level": "O3"}, {"venom": True, "level": "codesize"}]
+HS_FORMATS = ["bytecode", "bytecode_runtime", "asm", "metadata", "layout", "method_identifiers"]
+
+
+def part_hashseeds(ctx, root):
+    """the same control-flow heavy programs (several loop-carried / branch-merged locals; hand-written + seeded generator)
+    under legacy and every venom level, each in fresh processes which differ ONLY in PYTHONHASHSEED (same job order)."""
+    rnd = ctx.rng("hashseeds")
+    progs = {k: {"target": "c.vy", "files": {"c.vy": v}} for k, v in CF_FIXED.items()}
+    for i in range(8 if ctx.tier == "quick" else 40):
+        progs[f"cf_gen{i}"] = {"target": "c.vy", "files": {"c.vy": gen_cf_program(rnd)}}
+    materialize(root, progs)
+    seeds = [0, 1, 2, 3] if ctx.tier == "quick" else [0, 1, 2, 3, 4, 5, 6, 7]
+    jobs = [{"prog": p, "target": "c.vy", "layout": None, "paths": None, "cfg": c,
+             "formats": HS_FORMATS + (["cfg_runtime"] if c["venom"] else ["ir_runtime"])} for p in progs for c in HS_CFGS]
+    with ThreadPoolExecutor(max_workers=3) as ex:
+        results = list(ex.map(lambda hs: run_session(root, jobs, hs, f"hs{hs}"), seeds))
+    compared = 0
+    reported = set()
+    for i, jb in enumerate(jobs):
+        r0 = results[0][str(i)]
+        if "error" in r0:
+            ctx.violation("correspondence-broken", "control-flow program failed to compile in a worker",
+                          {"job": jb, "source": progs[jb["prog"]]["files"]["c.vy"], "error": r0["error"]})
+            return len(jobs) * len(seeds), compared
+        for hs, res in zip(seeds[1:], results[1:]):
+            r = res[str(i)]
+            for fmt in r0:
+                compared += 1
+                if r.get(fmt) != r0[fmt]:
+                    pipeline = "venom" if jb["cfg"]["venom"] else "legacy"
+                    if (fmt, pipeline) in reported:
+                        continue
+                    reported.add((fmt, pipeline))
+                    distinct = len({json.dumps(x[str(i)].get(fmt)) for x in results})
+                    ctx.violation("failing-input", f"output `{fmt}` of the same input depends on PYTHONHASHSEED of the compiler process",
+                                  {"program": jb["prog"], "source": progs[jb["prog"]]["files"]["c.vy"], "config": jb["cfg"], "format": fmt,
+                                   "PYTHONHASHSEED_a": seeds[0], "value_a": r0[fmt], "PYTHONHASHSEED_b": hs, "value_b": r.get(fmt),
+                                   "distinct_values_over_seeds": distinct, "seeds": seeds,
+                                   "replay": "PYTHONHASHSEED=<n> vyper -f " + fmt + " c.vy" + (" --experimental-codegen" if jb["cfg"]["venom"] else "")
+                                             + " --optimize " + jb["cfg"]["level"]},
+                                  key=f"C18:hashseed-dependent:{pipeline}:{fmt}")
+    ctx.corr["hashseed_programs"] = len(progs)
+    ctx.corr["hashseed_seeds"] = seeds
+    ctx.corr["hashseed_compilations"] = len(jobs) * len(seeds)
+    ctx.corr["hashseed_comparisons"] = compared
+    return len(jobs) * len(seeds), compared
+
+
 # --------------------------------------------------------------------------- exploration: the CLI entry points
 def part_cli(ctx, root):
     """`vyper -f <subset/order>` and `vyper-json` in fresh processes: same bytes for the same format whatever else is requested."""
@@ -797,6 +848,9 @@ def run(ctx):
             n_a, b3 = part_anonymize(ctx, tmp)
             bad += b3
         comps, compared = part_histories(ctx, root)
+        c2, cmp2 = part_hashseeds(ctx, root)
+        comps += c2
+        compared += cmp2
         stats = part_bundles(ctx, root, tmp)
         n_cli = part_cli(ctx, root)
     finally:
@@ -817,7 +871,9 @@ def run(ctx):
         f"and by an exhaustive differential of {n_s} Settings values. EXPLORED ONLY (no theorem possible about interpreter state): "
         f"{comps} compilations of {len(CORPUS)} corpus programs in {ctx.corr.get('history_sessions')} fresh processes under "
         f"PYTHONHASHSEED {ctx.corr.get('hash_seeds')}, different compile histories and output-format orders/subsets, "
-        f"{compared} byte comparisons; {stats.get('archive_roundtrips', 0)} archive and {stats.get('solc_json_roundtrips', 0)} "
+        f"{compared} byte comparisons (of which a hash-seed sweep: {ctx.corr.get('hashseed_programs')} control-flow heavy programs "
+        f"with several loop-carried / branch-merged locals, legacy + venom at every level, identical job lists in fresh processes "
+        f"under PYTHONHASHSEED {ctx.corr.get('hashseed_seeds')}); {stats.get('archive_roundtrips', 0)} archive and {stats.get('solc_json_roundtrips', 0)} "
         f"solc_json export->recompile round trips; {stats.get('source_mutations', 0)} source and {stats.get('override_mutations', 0)} "
         f"override mutations each changing the integrity sum; {stats.get('tampered_bundles', 0)} tampered bundles flagged; "
         f"{ctx.corr.get('cli_runs')} runs of the CLI entry points (`vyper -f` with different subsets/orders under different hash seeds, "
